@@ -263,11 +263,17 @@ def gen_tableau(repo):
 
     # which locals are assigned anywhere (then they are not constants)
     assigned = set()
+    nassign = {}
     for a in find_all(body, lambda n: n["kind"] in ("BinaryOperator", "CompoundAssignOperator") and
                       (n["kind"] == "CompoundAssignOperator" or n.get("opcode") == "=")):
         l = strip(kids(a)[0])
         if l["kind"] == "DeclRefExpr":
             assigned.add(l["referencedDecl"]["id"])
+            nassign[l["referencedDecl"]["id"]] = nassign.get(l["referencedDecl"]["id"], 0) + 1
+            # chained assignment  a = b = c
+            r = strip(kids(a)[1])
+            while r["kind"] == "BinaryOperator" and r.get("opcode") == "=":
+                r = strip(kids(r)[1])
     for a in find_all(body, lambda n: n["kind"] == "UnaryOperator" and n.get("opcode") in ("++", "--")):
         l = strip(kids(a)[0])
         if l["kind"] == "DeclRefExpr":
@@ -488,10 +494,10 @@ def gen_tableau(repo):
     for k, p, path in events:
         if k == "setmoles" and path and path[0][0][2][0] == "rk_exit":
             n = path[0][0][2][1]
-            if path[0][1] == "then":
+            if path[0][1] == "then" and not any(b == "else" for _, b in path[1:]):
                 out.setdefault("exit%d" % n, p)
-            elif n == 1:
-                # continuation after a failed rk=1 shortcut (deepest else)
+            elif n == 1 and path[0][1] == "then":
+                # continuation after a failed rk=1 shortcut (nested else)
                 out["stage2_after_rk1"] = p
     for n in (1, 2, 3):
         if "exit%d" % n not in out:
@@ -499,7 +505,7 @@ def gen_tableau(repo):
     if "stage2_after_rk1" not in out:
         raise Refuse("continuation after failed rk=1 shortcut not found")
     # result: Set_moles in the else branch of the last top-level comparison-if  (error_max > limit)
-    res = [(p, path) for k, p, path in events if k == "setmoles" and path and path[0][0][2][0] == "cmp" and path[0][1] == "else"]
+    res = [(p, path) for k, p, path in events if k == "setmoles" and path and path[0][0][2][0] == "cmp" and path[0][0][2][2] != "==" and path[0][1] == "else"]
     if len(res) != 1:
         raise Refuse("could not identify the accepted-step result combination")
     out["result"] = res[0][0]
@@ -538,7 +544,7 @@ def gen_tableau(repo):
         return emit(e, m)
 
     safety = [v for (i, nme, v) in pre if any(e_uses(p[3], i) for p, _ in hass if p[3] is not None)]
-    pre_map = {i: v for (i, nme, v) in pre}
+    pre_map = {i: v for (i, nme, v) in pre if nassign.get(i, 0) == 1}   # set once before the loop, never changed
 
     def subst_pre(e):
         if e[0] == "var" and e[2] in pre_map and e[2] not in vm:
